@@ -68,7 +68,7 @@ func RunUnit(u *Unit, shard, nshards int, deadline time.Time, boundOverride int)
 	if boundOverride != -2 {
 		bound = boundOverride
 	}
-	e := &Explorer{Name: u.Name, Bound: bound, Prune: u.Prune && !u.Sc.UsesFS, Shard: shard, NShards: nshards,
+	e := &Explorer{Name: u.Name, Bound: bound, Prune: u.Prune && !u.Sc.UsesFS && os.Getenv("VERIF_NOPRUNE") == "", Shard: shard, NShards: nshards,
 		Deadline: deadline, Run: u.Sc.Runner(dir), Check: u.Check, Goal: u.Goal, EnvChoices: u.Env, NoConfirm: u.NoConfirm}
 	e.Explore()
 	res := &UnitResult{Unit: u.Name, Stats: e.Stats, Violations: e.Violations, SigCounts: e.SigCounts(), HarnessErr: e.HarnessErr}
